@@ -16,7 +16,9 @@ from .core import cq_bool, cq_list, cq_pos
 
 THEOREMS = ["C14_subst_sound", "C14_pass_replace_parameter_values", "C14_pass_constant_assignments",
             "C14_pass_eliminable_forward_partial", "C14_substitution_step_partial", "C14_alias_shapes_partial",
-            "C14_slow_path_refuted", "C14_example"]
+            "C14_slow_path_refuted", "C14_pass_replace_expressions", "C14_pass_eliminable",
+            "C14_pass_replace_constant_values_partial", "C14_alias_add_sound", "C14_pass_detect_aliases",
+            "C14_simplify_once_preserves", "C14_preserves", "C14_example"]
 
 MODELLED_BOOL = ["replace_parameter_expressions", "replace_constant_expressions",
                  "eliminate_constant_assignments", "replace_parameter_values", "replace_constant_values",
@@ -27,6 +29,7 @@ ELIM_RE = r"_e\w*"
 TAG_SEGV = "cyclic-eliminable-assignments-segfault"
 TAG_FREE = "cyclic-eliminable-assignments-free-symbols"
 TAG_AFFINE = "reduce-affine-with-initial-equations-free-state-vectors"
+TAG_CONTRA = "contradictory-alias-pair-dropped"
 
 
 # ---------------------------------------------------------------------------
@@ -329,6 +332,38 @@ def gen_alias_model(rng, affine=False):
             "elim_graph": {}, "names": sorted(val)}
 
 
+def gen_contra_model(rng):
+    """a variable forced to zero by two alias equations of opposite sign (`a = b; a + b = 0`), in
+    every spelling / order, inside a small regular model"""
+    val = {"time": dy(rng, 0, 3), "a1": F(0), "a2": F(0)}
+    decl = ["Real a1;", "Real a2;"]
+    f1, n1 = rng.choice(ALIAS_FORMS)
+    while True:
+        f2, n2 = rng.choice(ALIAS_FORMS)
+        if n2 != n1:
+            break
+    a, b = ("a1", "a2") if rng.random() < 0.5 else ("a2", "a1")
+    eqs = [f1 % {"n": "a1", "w": "a2"}, f2 % {"n": a, "w": b}]
+    avail = ["a1", "a2"]
+    for i in range(3, rng.randint(3, 5) + 1):
+        n = "a%d" % i
+        decl.append("Real %s;" % n)
+        if rng.random() < 0.5:
+            w = rng.choice(avail)
+            f, neg = rng.choice(ALIAS_FORMS)
+            eqs.append(f % {"n": n, "w": w})
+            val[n] = -val[w] if neg else val[w]
+        else:
+            w, c = rng.choice(avail), dy(rng, nonzero=True)
+            eqs.append("%s = %s * %s + 1.0" % (n, num(c), w))
+            val[n] = c * val[w] + 1
+        avail.append(n)
+    rng.shuffle(eqs)
+    text = "model M\n  %s\nequation\n  %s;\nend M;\n" % ("\n  ".join(decl), ";\n  ".join(eqs))
+    return {"text": text, "cls": "M", "val": val, "kinds": {"contradictory_alias": 1}, "n_unknowns": len(avail),
+            "elim_graph": {}, "names": sorted(val), "contra": True}
+
+
 def gen_alias_options(rng):
     o = {"detect_aliases": True,
          "eliminate_constant_assignments": rng.random() < 0.5,
@@ -449,6 +484,17 @@ def generator_problem(case, res):
     return None
 
 
+def contra_lost(case, post):
+    """the generated contradictory pair a1 = a2, a1 = -a2 left no trace in the alias relation while both
+    variables are still unknowns (the two equations were dropped without any record)"""
+    if not case["meta"].get("contra"):
+        return False
+    named = set()
+    for c, als in post["classes"]:
+        named |= {c} | {a.lstrip("-") for a in als}
+    return not ({"a1", "a2"} & named) and {"a1", "a2"} <= set(post["algs"])
+
+
 def judge_c14(case, res):
     """(tag, why) or None"""
     if "crash" in res:
@@ -497,7 +543,7 @@ def judge_c14(case, res):
     if jac.get("rank") is None:
         return ("free-symbol", "Jacobian of the simplified system cannot be evaluated: %s" % jac.get("msg"))
     if jac["rank"] < jac["n_unk"]:
-        return ("solutions-added", "simplified system has %d unknowns, %d equations, Jacobian rank %d at the "
+        return (TAG_CONTRA if contra_lost(case, post) else "solutions-added", "simplified system has %d unknowns, %d equations, Jacobian rank %d at the "
                 "solution: solutions were added" % (jac["n_unk"], jac["n_eq"], jac["rank"]))
     return None
 
@@ -534,7 +580,7 @@ def judge_c15(case, res):
     b1 = len(post["ders"]) + len(post["algs"]) - (n_eqs or 0)
     # pymoca's own balance counts states + alg_states (= der_states + alg_states for scalar models)
     if b0 != b1 or len(post["states"]) != len(post["ders"]):
-        return ("unbalanced", "unknowns - equations changed from %d to %d (states %d, ders %d, algs %d, eqs %d)"
+        return (TAG_CONTRA if contra_lost(case, post) else "unbalanced", "unknowns - equations changed from %d to %d (states %d, ders %d, algs %d, eqs %d)"
                 % (b0, b1, len(post["states"]), len(post["ders"]), len(post["algs"]), n_eqs))
     if post["dae_residual"].get("n") != n_eqs:
         return ("residual-size", "dae residual has %s rows for %d equations" % (post["dae_residual"].get("n"), post["n_eqs"]))
@@ -697,6 +743,13 @@ def build_cases(ctx):
         o["iterative_simplification"] = False
         o["reduce_affine_expression"] = True
         extra.append(make_case(rng, mdl, o))
+    # oracle-only: contradictory alias pairs (a = b; a = -b: both zero).  Not in the correspondence:
+    # the model mirrors fixes/C14_contradictory_alias_keeps_equation.diff
+    for _ in range(ctx.scaled(10, 60)):
+        mdl = gen_contra_model(rng)
+        c = make_case(rng, mdl, gen_alias_options(rng))
+        c["meta"]["contra"] = True
+        extra.append(c)
     return cases, extra, n_corpus
 
 
